@@ -515,3 +515,64 @@ Proof. intros H. rewrite conv_int_text_lemma by assumption. cbn [bind]. now appl
 Lemma conv_float_of_int_lemma z :
   parse_float (VInt z) false = if (2 ^ 1024 - 2 ^ 970 <=? Z.abs z)%Z then Err ValueError else Ok (VFloat (dec_text z)).
 Proof. reflexivity. Qed.
+
+(* ---------------- the digit criterion in terms of magnitude: |z| < 10^4300 has at most 4300 digits ---------------- *)
+From Coq Require Import DecimalFacts DecimalPos DecimalN.
+Lemma chars_len u : length (chars_of_uint u) = nb_digits u.
+Proof. induction u; cbn; auto. Qed.
+
+(* value of the accumulator grows by a factor ten per digit *)
+Lemma of_uint_acc_lower l : forall acc, (Npos acc * 10 ^ N.of_nat (nb_digits l) <= Npos (Pos.of_uint_acc l acc))%N.
+Proof.
+  induction l; intros acc; cbn [nb_digits Pos.of_uint_acc];
+    try (rewrite Nat2N.inj_succ, N.pow_succ_r', N.mul_assoc; etransitivity; [|apply IHl]; apply N.mul_le_mono_r; lia).
+  cbn. lia.
+Qed.
+
+(* a numeral without leading zero and with n digits is at least 10^(n-1) *)
+Lemma of_uint_lower u : nzhead u = u -> u <> Nil -> (10 ^ N.of_nat (pred (nb_digits u)) <= Pos.of_uint u)%N.
+Proof.
+  intros Hn Hne. destruct u; try contradiction; cbn [nb_digits pred Pos.of_uint];
+    try (etransitivity; [|apply of_uint_acc_lower]; lia).
+  (* D0 u: nzhead (D0 u) = nzhead u, which is shorter than D0 u *)
+  exfalso. cbn in Hn. pose proof (nb_digits_nzhead u) as H. rewrite Hn in H. cbn in H. lia.
+Qed.
+
+Lemma to_uint_nzhead p : nzhead (Pos.to_uint p) = Pos.to_uint p.
+Proof.
+  pose proof (DecimalPos.Unsigned.to_of (Pos.to_uint p)) as H.
+  rewrite DecimalPos.Unsigned.of_to in H. cbn [N.to_uint] in H.
+  unfold unorm in H. destruct (nzhead (Pos.to_uint p)) eqn:E; try (now rewrite <- H).
+  exfalso. apply (DecimalPos.Unsigned.to_uint_nonzero p). now rewrite H.
+Qed.
+
+Lemma pos_digits_bound p k : (Npos p < 10 ^ N.of_nat k)%N -> nb_digits (Pos.to_uint p) <= k.
+Proof.
+  intros H. pose proof (of_uint_lower (Pos.to_uint p) (to_uint_nzhead p) (DecimalPos.Unsigned.to_uint_nonnil p)) as L.
+  rewrite DecimalPos.Unsigned.of_to in L.
+  destruct (Nat.le_gt_cases (nb_digits (Pos.to_uint p)) k) as [|Hgt]; [assumption|exfalso].
+  assert (10 ^ N.of_nat k <= 10 ^ N.of_nat (pred (nb_digits (Pos.to_uint p))))%N by (apply N.pow_le_mono_r; lia).
+  lia.
+Qed.
+
+Lemma num_digits_bound z k : (0 < k)%nat -> (Z.abs z < 10 ^ Z.of_nat k)%Z -> num_digits z <= k.
+Proof.
+  intros Hk H. unfold num_digits. destruct z as [|p|p]; cbn [Z.to_int].
+  - cbn. lia.
+  - rewrite chars_len. apply pos_digits_bound. cbn [Z.abs] in H.
+    apply N2Z.inj_lt. rewrite N2Z.inj_pow. cbn. rewrite nat_N_Z. exact H.
+  - rewrite chars_len. apply pos_digits_bound. cbn [Z.abs] in H.
+    apply N2Z.inj_lt. rewrite N2Z.inj_pow. cbn. rewrite nat_N_Z. exact H.
+Qed.
+
+Lemma int_text_ok_small z : (Z.abs z < 10 ^ 4300)%Z -> int_text_ok z = true.
+Proof.
+  intros H. unfold int_text_ok, MAX_STR_DIGITS. apply Nat.leb_le. apply num_digits_bound; [lia|].
+  replace (Z.of_nat 4300) with 4300%Z by reflexivity. exact H.
+Qed.
+
+Lemma conv_int_below_limit_lemma z nl : (Z.abs z < 10 ^ 4300)%Z ->
+  parse_string (VInt z) nl = Ok (VStr (dec_text z)) /\ parse_int (VStr (dec_text z)) nl = Ok (VInt z).
+Proof.
+  intros H. pose proof (int_text_ok_small z H) as Hok. split; [now apply conv_int_text_lemma | now apply conv_int_roundtrip_lemma].
+Qed.
